@@ -10,6 +10,30 @@ TECH = "Rocq theorem over an executable model + differential correspondence with
 
 # id -> (level text, level note)   ; absent => not_applicable with REASON
 CLAIMED = {
+ "C04": (
+  "Coq theorems (coq/Properties/C04.v, axiom-free) over the model of UnsizedType::get_ptr / owned_from_ptr for the whole "
+  "inductive universe of shapes (fixed-size checked values, lists with any prefix width, trailing bytes, lists and maps of "
+  "unsized elements to any depth, generated structs and enums): for ALL byte strings and both settings of the overflow-check "
+  "flag, parsing never performs an unchecked access outside the input (no Fault), a reported extent lies inside the input, "
+  "and every value produced has only valid bit patterns (bool in {0,1}, declared discriminants, recursively); without "
+  "overflow checks computing the extent never panics. Tie: valid encodings, truncations at every length, extensions, "
+  "single-field and whole-offset-table corruptions with boundary values, random bytes, on 19 Rust shapes, input flush "
+  "against a PROT_NONE page in a forked child, compared with the extracted model; shared accessors / iterators are judged "
+  "directly (every yielded element inside the input).",
+  "Partial in the sense of DESIGN section 7: the theorem is about the byte-level contract of the parser; that the Rust "
+  "pointer arithmetic realises it is the correspondence plus guard pages. Map/Set/UnsizedString owned conversions normalise "
+  "(BTreeMap order, UTF-8) and are judged by the predicate only on malformed inputs. Found and fixed D1 (offset iterator "
+  "sliced with unchecked pointer arithmetic from untrusted offsets)."),
+ "C05": (
+  "Coq theorems (coq/Properties/C05.v, axiom-free) by induction over the whole universe of shapes and all well-formed values: "
+  "the serialization has exactly byte_size bytes; parse (encode v) = (v, byte_size v), also when followed by other data "
+  "(non-tail positions) and behind a discriminant prefix. Tie: random values of 19 Rust shapes: byte_size, from_owned into "
+  "exact / oversized / undersized buffers (count returned, remaining slice, nothing written outside), owned(bytes), and the "
+  "off-chain TestByteSet helper, compared with the extracted model and with an independent Python encoder.",
+  "Initializer arguments are exercised through the operation histories of C01 (set_from_init, element initializers) where "
+  "the model's init_size / init_bytes are compared with INIT_BYTES / init; the client (de)serialization helpers with "
+  "discriminant are the leading-fixed-field instance (C05_discriminant_roundtrip) and the discriminant rejection is C08's "
+  "theorem. Found and fixed D2 (TestByteSet::owned parsed the headroom)."),
  "C07": (
   "Coq theorems (coq/Properties/C07.v, all axiom-free) over an executable model of pinocchio's account header "
   "(borrow state, resize_unchecked, resize_delta) and star_frame's data()/data_mut() protocol: for every initial "
